@@ -554,6 +554,72 @@ fn check_collections(rep: &Reporter, tier: Tier, runs: &AtomicU64) -> Value {
     json!({"collection_sizes_in_games": sizes, "documents": jobs.len(), "bytes_of_all_documents": bytes_total.load(Ordering::Relaxed), "feeds_per_document": "PgnRawParser::new (default buffer), 15 chunk sizes incl. 8191/8192/8193/65536/len-1/len/len+1, 4 chunk sizes x 7 periodic short-read patterns"})
 }
 
+/// comments of every length: a four-ply game whose first two comments have texts of lengths a and b
+/// (every pair up to 30 x 30; Lichess writes `{ [%eval 0.17] [%clk 0:00:30] }` as well as bare
+/// clocks, and annotators write anything), the other two a clock comment and a one-character one;
+/// each document through the default buffer and a handful of chunk sizes
+fn check_comment_lengths(rep: &Reporter, tier: Tier, runs: &AtomicU64) -> Value {
+    let pool = pool();
+    let g = &pool[0];
+    let text = |n: usize, salt: usize| -> String {
+        // blanks, brackets, digits, percent signs and colons, as in real comments; never a brace
+        let alphabet: Vec<char> = " [%eval 0.17] [%clk 0:00:3] ?!+-#=abcXYZ".chars().collect();
+        (0..n).map(|i| if i == 0 || i + 1 == n { ' ' } else { alphabet[(i * 7 + salt) % alphabet.len()] }).collect()
+    };
+    let max = if tier == Tier::Quick { 30 } else { 60 };
+    let pairs: Vec<(usize, usize)> = (1..=max).flat_map(|a| (1..=max).map(move |b| (a, b))).collect();
+    par_map(&pairs, |&(a, b)| {
+        let comments = [text(a, 3), text(b, 11), clk(2), "!".to_string()];
+        let mut s = String::new();
+        for (k, v) in &g.tags {
+            s.push_str(&format!("[{} \"{}\"]\n", k, v));
+        }
+        s.push('\n');
+        let mut annots = Vec::new();
+        for (i, mv) in g.sans.iter().take(4).enumerate() {
+            if i % 2 == 0 {
+                s.push_str(&format!("{}. ", i / 2 + 1));
+            } else {
+                s.push_str(&format!("{}... ", i / 2 + 1));
+            }
+            s.push_str(mv);
+            s.push(' ');
+            s.push_str(&format!("{{{}}} ", comments[i]));
+            annots.push((mv.clone(), Some(comments[i].clone())));
+        }
+        s.push_str("1-0\n");
+        let mut tags = g.tags.clone();
+        tags.sort();
+        let exp = vec![Yielded { tags, moves: annots }];
+        let bytes = s.as_bytes();
+        let mut first: Option<Vec<Result<Yielded, String>>> = None;
+        for feed in [Feed::Default, Feed::Chunk(1), Feed::Chunk(5), Feed::Chunk(19), Feed::Chunk(22), Feed::Chunk(64), Feed::Chunk(bytes.len()), Feed::Pattern(32, vec![0, 3])] {
+            runs.fetch_add(1, Ordering::Relaxed);
+            let case = |extra: Value| json!({"kind": "pgn_comment_lengths", "document": s, "comment_lengths": [a, b], "feed": format!("{:?}", feed), "detail": extra});
+            match run_feed(bytes, &feed) {
+                Err(m) => rep.report(format!("panic:{}", short(&m)), case(json!({"panic": m}))),
+                Ok(got) => {
+                    let games: Vec<&Game> = vec![g];
+                    if let Some((sig, detail)) = compare(&exp, &got, &games, true) {
+                        rep.report(format!("comment_lengths:{}", sig), case(detail));
+                        break;
+                    }
+                    match &first {
+                        None => first = Some(got),
+                        Some(f) => {
+                            if *f != got {
+                                rep.report("comment_lengths:result_depends_on_chunking".to_string(), case(json!({})));
+                                break;
+                            }
+                        }
+                    }
+                }
+            }
+        }
+    });
+    json!({"documents": pairs.len(), "comment_lengths": format!("1..={} x 1..={}", max, max), "feeds_per_document": 8})
+}
+
 pub fn run(tier: Tier) -> i32 {
     let started = Instant::now();
     let rep = Reporter::new("C17");
@@ -584,6 +650,7 @@ pub fn run(tier: Tier) -> i32 {
             check_doc(&rep, &pool, d, 2, if tier == Tier::Quick { 3 } else { 5 }, &runs, &outcomes);
         }
     });
+    let comment_lengths = check_comment_lengths(&rep, tier, &runs);
     let t_coll = Instant::now();
     let coll = check_collections(&rep, tier, &runs);
     let coll_secs = t_coll.elapsed().as_secs_f64();
@@ -591,6 +658,7 @@ pub fn run(tier: Tier) -> i32 {
     cov.states = ds.len() as u64;
     cov.transitions = runs.load(Ordering::Relaxed);
     cov.set("collections", coll);
+    cov.set("comment_length_lattice", comment_lengths);
     cov.set("collections_secs", json!(coll_secs));
     cov.traces_validated = cov.transitions;
     cov.set("documents", json!(ds.len()));
@@ -613,6 +681,26 @@ pub fn replay(case: &Value) -> i32 {
         "\n\n" => "\n\n",
         _ => "\n",
     };
+    if case["kind"] == "pgn_comment_lengths" {
+        let text = case["document"].as_str().unwrap_or("").to_string();
+        let f = case["feed"].as_str().unwrap_or("Default");
+        let nums: Vec<usize> = f.split(|c: char| !c.is_ascii_digit()).filter(|t| !t.is_empty()).filter_map(|t| t.parse().ok()).collect();
+        let feed = if f.starts_with("Chunk") { Feed::Chunk(nums[0]) } else if f.starts_with("Pattern") { Feed::Pattern(nums[0], nums[1..].to_vec()) } else { Feed::Default };
+        // the reference for a free-standing document: the reader fed one byte at a time
+        match (run_feed(text.as_bytes(), &feed), run_feed(text.as_bytes(), &Feed::Chunk(1))) {
+            (Ok(g1), Ok(g2)) => {
+                println!("through {:?}: {:?}\none byte at a time: {:?}", feed, g1, g2);
+                if g1 != g2 {
+                    rep.report("comment_lengths:result_depends_on_chunking".to_string(), json!({"kind": "pgn_comment_lengths", "document": text, "feed": f}));
+                }
+            }
+            (Err(m), _) | (_, Err(m)) => rep.report(format!("panic:{}", short(&m)), json!({"kind": "pgn_comment_lengths", "document": text, "panic": m})),
+        }
+        println!("replay: {} violating case(s) reproduced", rep.violation_count());
+        let mut cov = Coverage::new();
+        cov.states = 1;
+        return finish(&rep, Tier::Quick, cov, started);
+    }
     if case["kind"] == "pgn_collection" {
         let cpool = collection_pool();
         let n = case["games_in_document"].as_u64().unwrap_or(1) as usize;
